@@ -528,6 +528,22 @@ fn answer(a: &[&str]) -> String {
             if t.write(&mut out).is_err() { return "BAD write_error".into(); }
             format!("L {} {}", t.information_group_length, out.len() as i64 - 12)
         }
+        // to_float float32|float64 <variant> <items...> -> "OK <bits of result> <bits of first as float>" | "ERR"
+        "to_float" => {
+            macro_rules! mk { ($t:ty, $variant:ident) => {{
+                let xs: Vec<$t> = a[3..].iter().map(|x| x.parse::<i128>().unwrap() as $t).collect();
+                let first = xs.first().copied();
+                (PrimitiveValue::$variant(xs.into_iter().collect()), first.map(|x| (x as f32).to_bits() as u64), first.map(|x| (x as f64).to_bits()))
+            }}}
+            let (v, w32, w64) = match a[2] {
+                "U8" => mk!(u8, U8), "U16" => mk!(u16, U16), "I16" => mk!(i16, I16), "U32" => mk!(u32, U32), "I32" => mk!(i32, I32), "U64" => mk!(u64, U64), _ => mk!(i64, I64),
+            };
+            if a[1] == "float32" {
+                match v.to_float32() { Ok(x) => format!("OK {} {}", x.to_bits(), w32.map(|b| b.to_string()).unwrap_or("-".into())), Err(_) => "ERR".into() }
+            } else {
+                match v.to_float64() { Ok(x) => format!("OK {} {}", x.to_bits(), w64.map(|b| b.to_string()).unwrap_or("-".into())), Err(_) => "ERR".into() }
+            }
+        }
         // c04_tokens codec default|nochange token... -> "N - <hex of the stream>"
         //   tokens: S:gggg,eeee,len  I:len  i  s  P  E:gggg,eeee,US,v,v..  E:gggg,eeee,VR,texthex  F:hex  O:n,n
         "c04_tokens" => {
